@@ -51,6 +51,8 @@ func runC20(p *eng.Prog, r *eng.Report, tier string) {
 	g := f.Graph()
 	c20AccumulatorsPerIteration(c, "C20.8", f)
 	c20SortsCopies(c, "C20.9")
+	c20ComparatorsAreOrders(c, "C20.10")
+	c20DecoderKeepsEveryValue(c, "C20.11")
 	hname := "p1"
 	// ---- C20.4b the encoder's output buffer never overlaps the digest ----------
 	nenc := 0
@@ -753,4 +755,135 @@ func c20SortsCopies(c *cx, id string) {
 		c.r.Check(id, f, "sorted slice "+eng.TypeStr(f.Info().TypeOf(cl.Args[0])), "E-alias: a slice that AppendHash sorts was allocated in this call (a copy), never the receiver's or a form's own storage", cl.Pos(), okf, why+": the caller's data is reordered by hashing")
 	}
 	c.r.Floor(id, "sort calls in AppendHash", n, 4)
+}
+
+// c20ComparatorsAreOrders (C20.10): sort.Slice / sort.SliceStable need a strict
+// weak order. Shape rule over every comparator literal of disco.Info.AppendHash
+// and the form package: a return is (a) a < or > comparison whose operands are
+// the same key expression of the two elements (swapping the index parameters
+// maps one operand onto the other), (b) the constant false, never the constant
+// true (a comparator must be irreflexive); and every condition a return
+// depends on is an equality / inequality between the same key of the two
+// elements (the lexicographic idiom "if ka != kb { return ka < kb }"). A
+// return under any other condition - "one of the two has no key" - makes an
+// element equivalent to everything while the others stay ordered: equivalence
+// is no longer transitive and the order sort.Slice produces depends on the
+// order of the input.
+func c20ComparatorsAreOrders(c *cx, id string) {
+	n := 0
+	swap := func(s string) string {
+		var b strings.Builder
+		for i := 0; i < len(s); i++ {
+			if s[i] == 'p' && i+1 < len(s) && (s[i+1] == '0' || s[i+1] == '1') &&
+				(i == 0 || !isIdentByte(s[i-1])) && (i+2 >= len(s) || !isIdentByte(s[i+2])) {
+				if s[i+1] == '0' {
+					b.WriteString("p1")
+				} else {
+					b.WriteString("p0")
+				}
+				i++
+				continue
+			}
+			b.WriteByte(s[i])
+		}
+		return b.String()
+	}
+	for _, f := range c.allFns() {
+		if !(strings.HasPrefix(f.Short, "disco.") || strings.HasPrefix(f.Short, "form.") || strings.HasPrefix(f.Short, "disco/info.") || strings.HasPrefix(f.Short, "disco/items.")) {
+			continue
+		}
+		for _, sc := range append(f.Calls("sort.Slice"), f.Calls("sort.SliceStable")...) {
+			lit, ok := ast.Unparen(sc.Args[1]).(*ast.FuncLit)
+			if !ok {
+				continue
+			}
+			lf := c.p.FnOfLit(lit)
+			if lf == nil {
+				continue
+			}
+			lg := lf.Graph()
+			for _, rs := range lg.Returns {
+				if len(rs.Results) != 1 {
+					continue
+				}
+				n++
+				pt, _ := lg.Where(rs)
+				bad := ""
+				res := ast.Unparen(rs.Results[0])
+				switch x := res.(type) {
+				case *ast.BinaryExpr:
+					if x.Op != token.LSS && x.Op != token.GTR {
+						bad = "result is not a < or > comparison"
+					} else if l, r := lf.Norm(x.X, &pt), lf.Norm(x.Y, &pt); swap(l) != r || l == r {
+						bad = "the operands " + l + " and " + r + " are not the same key of the two elements"
+					}
+				default:
+					switch lf.Norm(res, &pt) {
+					case "false":
+					case "true":
+						bad = "returns true unconditionally on this path: less(i, i) would hold"
+					default:
+						bad = "result " + lf.Norm(res, &pt) + " is neither a key comparison nor false"
+					}
+				}
+				if bad == "" {
+					for _, a := range lg.FactsAt(pt) {
+						t := strings.TrimPrefix(a, "!")
+						okA := false
+						if strings.HasPrefix(t, "eq(") && strings.HasSuffix(t, ")") {
+							parts := splitTop(t[3:len(t)-1], ",")
+							okA = len(parts) == 2 && swap(parts[0]) == parts[1] && parts[0] != parts[1]
+						}
+						if !okA {
+							bad = "the return depends on " + a + ", which does not compare a key of one element with the same key of the other"
+							break
+						}
+					}
+				}
+				c.r.Check(id, lf, "comparator return "+c.p.NodeStr(rs), "T: a comparator is a strict weak order: lexicographic over keys of the two elements, constant false otherwise", rs.Pos(), bad == "", bad)
+			}
+		}
+	}
+	c.r.Floor(id, "returns of sort comparators in disco and form", n, 5)
+}
+
+func isIdentByte(b byte) bool {
+	return b == '_' || (b >= '0' && b <= '9') || (b >= 'a' && b <= 'z') || (b >= 'A' && b <= 'Z')
+}
+
+// c20DecoderKeepsEveryValue (C20.11): the hash covers every <value/> of every
+// field, so the decoded form must hold every <value/> that was on the wire,
+// whatever the field's type says about how many there should be: in the
+// UnmarshalXML methods of package form a store to field.value takes a decoded
+// slice whole - no slice expression, no index, no literal built from one
+// element.
+func c20DecoderKeepsEveryValue(c *cx, id string) {
+	n := 0
+	for _, f := range c.allFns() {
+		if !strings.HasPrefix(f.Short, "form.") || f.Decl == nil || f.Decl.Name.Name != "UnmarshalXML" {
+			continue
+		}
+		for _, w := range f.FieldWrites("form.field.value") {
+			if w.RHS == nil {
+				continue
+			}
+			n++
+			bad := ""
+			ast.Inspect(w.RHS, func(x ast.Node) bool {
+				switch y := x.(type) {
+				case *ast.SliceExpr:
+					if y.Low != nil || y.High != nil {
+						bad = "stores " + types.ExprString(w.RHS) + ": values beyond the slice bounds are dropped from the decoded form"
+					}
+				case *ast.IndexExpr:
+					if _, isSlice := f.Info().TypeOf(y.X).Underlying().(*types.Slice); isSlice {
+						bad = "stores " + types.ExprString(w.RHS) + ": a single element of the decoded values"
+					}
+				}
+				return true
+			})
+			c.r.Check(id, f, "decoded values stored", "E-taint: the form decoder stores the decoded <value/> list whole (the capabilities hash of a received form covers all of them)", w.Stmt.Pos(), bad == "", bad)
+		}
+	}
+	c.r.Floor(id, "stores to field.value in the form decoders", n, 1)
 }
